@@ -139,8 +139,24 @@ func (p *GleecePipeline) GenerateIntermediate() (GleeceFlattenedMetadata, error)
 		Imports:           p.getImports(controllers),
 		Flat:              controllers,
 		Models:            models,
-		PlainErrorPresent: p.symGraph.IsSpecialPresent(common.SpecialTypeError),
+		PlainErrorPresent: anyRouteReturnsPlainError(controllers),
 	}, nil
+}
+
+// anyRouteReturnsPlainError reports whether some API endpoint returns Go's built-in 'error'.
+//
+// The mere presence of the 'error' type in the graph is not enough to tell: a custom error
+// struct embeds 'error' too, and a project that only uses custom errors has no use for the
+// standard RFC-7807 model.
+func anyRouteReturnsPlainError(controllers []definitions.ControllerMetadata) bool {
+	for _, controller := range controllers {
+		for _, route := range controller.Routes {
+			if len(route.Responses) > 0 && route.GetErrorReturnType().Name == string(common.SpecialTypeError) {
+				return true
+			}
+		}
+	}
+	return false
 }
 
 func (p *GleecePipeline) getReducedControllers() ([]definitions.ControllerMetadata, error) {
